@@ -667,8 +667,9 @@ func allocSite(e *entry, p []byte) (string, []string, int64) {
 	runtime.MemProfileRate = 1
 	defer func() { runtime.MemProfileRate = old }()
 	snap := func() map[[32]uintptr]int64 {
-		runtime.GC()
-		runtime.GC()
+		for i := 0; i < 3; i++ {
+			runtime.GC() // the profile lags up to two cycles behind
+		}
 		n, _ := runtime.MemProfile(nil, true)
 		recs := make([]runtime.MemProfileRecord, n+200)
 		n, ok := runtime.MemProfile(recs, true)
@@ -684,23 +685,51 @@ func allocSite(e *entry, p []byte) (string, []string, int64) {
 	before := snap()
 	runGuarded(e, p)
 	after := snap()
-	var best [32]uintptr
-	var bestD int64
-	keys := make([][32]uintptr, 0, len(after))
-	for k := range after {
-		keys = append(keys, k)
+	// candidates in decreasing order of bytes allocated between the snapshots; only stacks that
+	// pass through this decode call count (the profile may still publish older allocations of
+	// the worker loop)
+	type cand struct {
+		k [32]uintptr
+		d int64
 	}
-	sort.Slice(keys, func(i, j int) bool {
+	var cs []cand
+	for k, v := range after {
+		if d := v - before[k]; d > 0 {
+			cs = append(cs, cand{k, d})
+		}
+	}
+	sort.Slice(cs, func(i, j int) bool {
+		if cs[i].d != cs[j].d {
+			return cs[i].d > cs[j].d
+		}
 		for x := 0; x < 32; x++ {
-			if keys[i][x] != keys[j][x] {
-				return keys[i][x] < keys[j][x]
+			if cs[i].k[x] != cs[j].k[x] {
+				return cs[i].k[x] < cs[j].k[x]
 			}
 		}
 		return false
 	})
-	for _, k := range keys {
-		if d := after[k] - before[k]; d > bestD {
-			best, bestD = k, d
+	var best [32]uintptr
+	var bestD int64
+	for _, c := range cs {
+		n := 0
+		for n < 32 && c.k[n] != 0 {
+			n++
+		}
+		inDecode := n == 32 // a truncated stack cannot be told apart: accept it
+		fr := runtime.CallersFrames(c.k[:n])
+		for {
+			f, more := fr.Next()
+			if f.Function == "main.runGuarded" {
+				inDecode = true
+			}
+			if !more {
+				break
+			}
+		}
+		if inDecode {
+			best, bestD = c.k, c.d
+			break
 		}
 	}
 	if bestD == 0 {
